@@ -24,7 +24,7 @@ def judge(path):
                 for i, n in enumerate(ev[5:25]):
                     c["gen." + GEN[i]] = c.get("gen." + GEN[i], 0) + n
             elif ev[0] == "T":
-                cls, mask, hx = ev[1], ev[2] & 0xfffff, ev[3]
+                cls, mask, hx = ev[1], ev[2] & 0x3fffff, ev[3]
                 if ev[2] & (1 << 31):
                     c["rejected_without_error_flag(C14)"] = c.get("rejected_without_error_flag(C14)", 0) + 1
                 tok = bytes.fromhex(hx)
@@ -97,7 +97,7 @@ def fuzz(rep, rd, seed, runs, jobs, target="d_c06", dict_words=(), max_len=65536
                 key = "hang:libfuzzer"
             rep.violation("fuzz:" + key, "libFuzzer run died: " + key, wit)
     rep.count("libfuzzer_executions", execs)
-    rep.evaluations += execs * 20   # every fuzz input is shown to the 20 checkers
+    rep.evaluations += execs * 22   # every fuzz input is shown to the 22 checkers
     rep.count("libfuzzer_corpus_files", len(os.listdir(corpus)))
     return corpus
 
@@ -109,7 +109,7 @@ DICT = ["none", "HS256", "HS384", "HS512", "RS256", "ES256", "EdDSA", "PS256", "
 def run(tier, seed, replay):
     rep = vf.Report("C06", tier, seed)
     rep.rule = ("grammar-derived near-valid tokens (20 generator classes: valid, malformed JSON, character faults, padding, huge/deep "
-                "segments, random bytes, NUL inside, segment-count games, ...) and coverage-guided libFuzzer inputs, each shown to 20 "
+                "segments, random bytes, NUL inside, segment-count games, ...) and coverage-guided libFuzzer inputs, each shown to 22 "
                 "checkers (2 providers x {no key, HS256, RS256, PS256, ES256, ES384, ES512, ES256K, Ed25519, Ed448}) with a reading callback; evaluations = verify calls; "
                 "distinct = distinct (generator class, classifier reason, accepted?) tuples among logged tokens")
     rep.assumptions = ["ASan/UBSan/LSan see only libjwt's own code (jansson/OpenSSL/GnuTLS are uninstrumented)",
